@@ -415,9 +415,22 @@ class Intersection:
         vector1 = ptb1 - ptb0
         diff0 = ptb0 - pta0
         denom = vector0.cross(vector1)
+        if isinstance(denom, float):
+            # Rounding makes collinear float segments look slightly oblique
+            norm2 = vector0.inner(vector0) * vector1.inner(vector1)
+            if denom * denom < 1e-18 * norm2:
+                denom = 0
         if denom != 0:  # Lines are not parallel
             param0 = diff0.cross(vector1) / denom
             param1 = diff0.cross(vector0) / denom
+            if isinstance(param0, float) or isinstance(param1, float):
+                # Rounding may put a crossing at a vertex just outside
+                # of both adjacent segments
+                tol = Intersection.tol_du
+                if -tol < param0 < 0 or 1 < param0 < 1 + tol:
+                    param0 = min(1, max(0, param0))
+                if -tol < param1 < 0 or 1 < param1 < 1 + tol:
+                    param1 = min(1, max(0, param1))
             if param0 < 0 or 1 < param0:
                 return tuple()
             if param1 < 0 or 1 < param1:
